@@ -48,7 +48,20 @@ CombBin ==
     /\ l <= TraceLen /\ Ev.e = "CombBin"
     /\ LET rs == SeqOf(Ev.rs) IN Matches(Ev.T, Ev.out, IF Ev.which = 0 THEN WVar(rs) ELSE WEq(rs))   \* the same rule, bin by bin
     /\ l' = l + 1
-Next == Comb \/ CombHead \/ CombBin
+\* results of runs with more than 2^32 calls each: the counters are added without truncation (20-bit limbs) and the
+\* conversion between (value, error) and (sum, sum of squares) still round-trips
+LimbSum(ns) == LET F[i \in 0 .. Len(ns)] == IF i = 0 THEN <<0, 0>> ELSE <<F[i - 1][1] + ns[i][1], F[i - 1][2] + ns[i][2]>>
+               IN <<F[Len(ns)][1] + (F[Len(ns)][2] \div 1048576), F[Len(ns)][2] % 1048576>>
+CombBig ==
+    /\ l <= TraceLen /\ Ev.e = "CombBig"
+    /\ LET rs == SeqOf(Ev.rs)
+           c == WVar(rs)
+           slack == IF Ev.T = "float" THEN 64 ELSE 4
+       IN /\ Len(rs) = Ev.m /\ Len(Ev.Ns) = Ev.m
+          /\ Ev.outN = LimbSum(Ev.Ns) /\ Ev.sameCounters = 1
+          /\ Near(Ev.E, SC, c.E, slack) /\ Near(Ev.V, SC, c.V, slack)
+    /\ l' = l + 1
+Next == Comb \/ CombHead \/ CombBin \/ CombBig
 Spec == Init /\ [][Next]_vars
 TraceAccepted == TraceAcceptedBy(TraceLen)
 =============================================================================
